@@ -109,3 +109,15 @@ Fixpoint has_table (x : item) : bool :=
   is_table x || match x with Elem _ _ _ _ => false | Group _ _ _ ks => kids_have_table ks end
 with kids_have_table (ks : items) : bool :=
   match ks with INil => false | ICons x xs => has_table x || kids_have_table xs end.
+
+(* an OCCURS DEPENDING ON table inside a repeated item (finding K-index-odo: NDNav.index re-walks one
+   occurrence with a fresh LocationMaker whose anchors do not hold the counter) *)
+Fixpoint odo_in_table_aux (inside : bool) (x : item) : bool :=
+  (inside && match item_oc x with Odo _ => true | _ => false end)
+  || match x with
+     | Elem _ _ _ _ => false
+     | Group _ _ _ ks => kids_odo_in_table (inside || is_table x) ks
+     end
+with kids_odo_in_table (inside : bool) (ks : items) : bool :=
+  match ks with INil => false | ICons x xs => odo_in_table_aux inside x || kids_odo_in_table inside xs end.
+Definition odo_in_table (x : item) : bool := odo_in_table_aux false x.
